@@ -621,8 +621,7 @@ def run(ctx):
             nontrivial.add((c["doc"], g, ind, kw))
             ci_ = canon_infoset(*det["infoset"])
             reads.append((i, xml_bytes, ci_))
-            if g != 1:
-                specs.append((i, "spec %d %d %d %s" % (g, ind, kw, dump), " ".join(ci_.split()[4:])))
+            specs.append((i, "spec %d %d %d %s" % (g, ind, kw, dump), " ".join(ci_.split()[4:])))
         else:
             lid, roots = parse_dump(toks)
             sh = shapes(roots)
@@ -698,7 +697,7 @@ def run(ctx):
         ctx.violation("reader-model-vs-pyexpat", {"broken": "Model/XmlRead.v read_xml disagrees with pyexpat on output of the C", "first_cases": read_bad[:3]},
                       found_input=False)
     if spec_bad:
-        ctx.violation("theorem-spec-vs-pyexpat", {"broken": "the infoset specified by info_node (Proofs/EncXmlProofs.v) under node_ok differs from what pyexpat reads in the C's output",
+        ctx.violation("theorem-spec-vs-pyexpat", {"broken": "the infoset specified by info_g (Proofs/EncXmlIndent.v) under node_ok differs from what pyexpat reads in the C's output",
                                                   "first_cases": spec_bad[:3]}, found_input=False)
     if not concrete:
         if proof_broken:
